@@ -1,5 +1,162 @@
-From NL Require Import Aio.Model.
+(** C19 -- async-iterator helpers neither lose, duplicate nor reorder items.
+    Property theorems only; each is closed by [exact] of a lemma proved in
+    Aio/{Merge,Agen,ToAiter}.v.
+
+    Model: Aio/Model.v (transcription of nextline/utils/aio.py).  All
+    statements quantify over EVERY label sequence [ls]: every order in which
+    the sources' pending `__anext__` complete, every moment at which
+    `asyncio.wait(FIRST_COMPLETED)` returns (with one or SEVERAL done tasks),
+    every pop/iteration order of the returned set (it is part of the label),
+    every moment at which the consumer resumes -- and over every number and
+    length of sources.  No bounds. *)
+From NL Require Import Aio.Model Aio.Merge Aio.Agen Aio.ToAiter.
 Open Scope Z_scope.
+
+(** ---- merge_aiters ---- *)
+
+(** every yielded pair carries the tag of an existing source, and the items
+    yielded with tag i are, in order and without gap or repetition, a prefix of
+    source i's items *)
+Theorem C19_merge_projection : forall (items : list (list V)) (ls : list mlabel) (i : nat),
+  (forall j v, In (j, v) (yields (mouts items ls)) -> (j < length items)%nat) /\
+  exists rest, nth i items [] = proj i (yields (mouts items ls)) ++ rest.
+Proof. exact merge_projection. Qed.
+
+(** exact accounting at every moment: items of source i = yielded with tag i ++
+    (at most one item whose anext is done but which is not yielded yet) ++ not produced yet *)
+Theorem C19_merge_accounting : forall items ls i s,
+  nth_error (m_srcs (mrun items ls)) i = Some s ->
+  nth i items [] = proj i (yields (mouts items ls)) ++ inflight s ++ fst s.
+Proof. exact merge_accounting. Qed.
+
+(** the merged iterator is finished exactly when it has been started and every
+    source's StopAsyncIteration has been consumed; then the projection on every
+    tag is the whole source: nothing lost *)
+Theorem C19_merge_terminates : forall items ls,
+  (m_phase (mrun items ls) = MFin <->
+   (m_phase (mrun items ls) <> MFresh /\ forall s, In s (m_srcs (mrun items ls)) -> s = ([], LDropped))) /\
+  (m_phase (mrun items ls) = MFin -> forall i, proj i (yields (mouts items ls)) = nth i items []).
+Proof. exact merge_terminates. Qed.
+
+(** it cannot get stuck: every run has a continuation after which it has finished;
+    and once finished it stays finished and yields nothing more *)
+Theorem C19_merge_can_finish : forall items ls, exists ls', m_phase (mrun items (ls ++ ls')) = MFin.
+Proof. exact merge_can_finish. Qed.
+
+Theorem C19_merge_finished_stays : forall items ls ls',
+  m_phase (mrun items ls) = MFin ->
+  m_phase (mrun items (ls ++ ls')) = MFin /\ yields (mouts items (ls ++ ls')) = yields (mouts items ls).
+Proof. exact merge_finished_stays. Qed.
+
+(** ---- agen_with_wait ---- *)
+
+(** the items yielded are a prefix of the wrapped iterator's items (exact
+    accounting), and a normally finished iteration has yielded all of them *)
+Theorem C19_agen_items : forall (items : list V) (ls : list glabel),
+  items = gitems (gouts items ls) ++ ainfl (g_anext (grun items ls)) ++ g_rest (grun items ls) /\
+  (g_phase (grun items ls) = GFin -> gitems (gouts items ls) = items).
+Proof. exact agen_items_full. Qed.
+
+(** exceptions of awaited tasks are surfaced:
+    (1) a return of asyncio.wait while an awaited task has failed raises -- for
+        every iteration order of the done-set -- the exception of an awaited failed task;
+    (2) so no item and no normal end is produced while an awaited task has failed;
+    (3) a task stays awaited until it has ended without exception;
+    (4) whatever is raised is the exception with which a task handed over by asend ended;
+    (5) without a failing task the iteration never raises. *)
+Theorem C19_agen_first_exception :
+  (forall st ord t e, g_phase st = GWait -> In t (g_pending st) -> texc (g_tasks st) t = Some e ->
+     exists e' t', snd (snd (gstep st (GWake ord))) = GVRaise e' /\ g_phase (fst (gstep st (GWake ord))) = GRaised /\
+                   In t' (g_pending st) /\ texc (g_tasks st) t' = Some e') /\
+  (forall st ord, g_phase st = GWait ->
+     (forall v, snd (snd (gstep st (GWake ord))) <> GVItem v) /\ snd (snd (gstep st (GWake ord))) <> GVStop \/
+     forall t, In t (g_pending st) -> texc (g_tasks st) t = None) /\
+  (forall st l t, In t (g_pending st) ->
+     In t (g_pending (fst (gstep st l))) \/ (tdone (g_tasks st) t = true /\ texc (g_tasks st) t = None)) /\
+  (forall items ls x e, In (x, GVRaise e) (gouts items ls) ->
+     exists t ts, In (GTaskEnd t (TExc e)) ls /\ In (GSend (Some ts)) ls /\ In t ts) /\
+  (forall items ls, (forall t e, ~ In (GTaskEnd t (TExc e)) ls) ->
+     g_phase (grun items ls) <> GRaised /\ forall x e, ~ In (x, GVRaise e) (gouts items ls)).
+Proof. exact agen_first_exception. Qed.
+
+(** "first" read chronologically is NOT what the code does: two awaited tasks
+    fail one after the other while the generator is suspended at its yield; the
+    next wake-up sees both in one done-set and raises whichever the set iterates
+    first -- here the LATER failure.  (witness schedule; the same schedule is
+    reproduced against the real code by the harness, see evidence
+    strict_first_exception_deviations) *)
+Definition chrono_ls : list glabel :=
+  [GSend None; GSrc; GWake []; GSpawn; GSpawn; GSend (Some [0%nat; 1%nat]);
+   GTaskEnd 0 (TExc 1); GTaskEnd 1 (TExc 2); GSend None; GWake [1%nat; 0%nat]].
+
+Theorem C19_agen_chronological_refuted :
+  exists items pre mid post t1 e1 t2 e2,
+    pre ++ GTaskEnd t1 (TExc e1) :: mid ++ GTaskEnd t2 (TExc e2) :: post = chrono_ls /\
+    (forall t e, ~ In (GTaskEnd t (TExc e)) pre) /\ e1 <> e2 /\
+    In t1 (g_pending (grun items (pre ++ [GTaskEnd t1 (TExc e1)]))) /\
+    last (gouts items chrono_ls) ((false, []), GVNone) = ((false, [0%nat; 1%nat]), GVRaise e2).
+Proof.
+  exists [10; 11], [GSend None; GSrc; GWake []; GSpawn; GSpawn; GSend (Some [0%nat; 1%nat])],
+         [], [GSend None; GWake [1%nat; 0%nat]], 0%nat, 1, 1%nat, 2.
+  split; [reflexivity|]. split.
+  - intros t e H. simpl in H. repeat (destruct H as [H|H]; [discriminate|]). exact H.
+  - split; [discriminate|]. vm_compute. auto.
+Qed.
+
+(** ... strongest chronological statement that holds (added hypothesis: the
+    failed awaited tasks visible at the wake-up all carry the same exception,
+    e.g. there is exactly one): then exactly that exception is raised *)
+Theorem C19_agen_chronological_partial : forall st ord t e,
+  g_phase st = GWait -> In t (g_pending st) -> texc (g_tasks st) t = Some e ->
+  (forall t' e', In t' (g_pending st) -> texc (g_tasks st) t' = Some e' -> e' = e) ->
+  snd (snd (gstep st (GWake ord))) = GVRaise e.
+Proof. exact agen_single_failure. Qed.
+
+(** ---- to_aiter ---- *)
+
+(** thread and no-thread variants, any interleaving of anext calls, worker
+    executions and deliveries: the successive executions of next() obtain exactly
+    the iterable's items in order, then StopIteration; every call delivers what
+    its own execution obtained *)
+Theorem C19_to_aiter_items : forall (thread : bool) (items : list V) (ls : list tlabel),
+  let st := trun thread items ls in
+  map snd (t_log st) = map (res_at items) (seq 0 (length (t_log st))) /\
+  t_rest st = skipn (length (t_log st)) items /\
+  forall c r, In (TORes c r) (touts thread items ls) -> In (c, r) (t_log st).
+Proof. exact to_aiter_items. Qed.
+
+(** `async for` (each anext awaited before the next): exactly the items, then the end *)
+Theorem C19_to_aiter_sequential : forall thread items k,
+  delivered (touts thread items (seq_labels thread k)) = map (res_at items) (seq 0 k).
+Proof. exact to_aiter_sequential. Qed.
+
+(** ---- non-vacuity ---- *)
+
+(** three sources (one empty); sources 0 and 1 complete in the same step and the
+    done-set is popped in the order 1, 0; the consumer is slow; the run ends *)
+Definition ex_items : list (list V) := [[1; 2]; [3]; []].
+Definition ex_ls : list mlabel :=
+  [MNext; MComplete 0; MComplete 1; MWake [1%nat; 0%nat]; MComplete 2; MNext; MNext;
+   MWake []; MComplete 0; MComplete 1; MWake [1%nat]; MNext; MComplete 0; MWake []].
+
 Example C19_example_nonvacuous :
-  yields (mouts [[1;2];[3]] [MNext; MComplete 0; MComplete 1; MWake [1%nat;0%nat]; MNext; MNext]) = [(1%nat,3);(0%nat,1)].
-Proof. vm_compute. reflexivity. Qed.
+  yields (mouts ex_items ex_ls) = [(1%nat, 3); (0%nat, 1); (0%nat, 2)] /\
+  map fst (mouts ex_items ex_ls) =
+    [[]; []; []; [0%nat; 1%nat]; []; []; []; [2%nat]; []; []; [0%nat; 1%nat]; []; []; [0%nat]] /\
+  m_phase (mrun ex_items ex_ls) = MFin /\
+  proj 0 (yields (mouts ex_items ex_ls)) = [1; 2] /\
+  gitems (gouts [10; 11] chrono_ls) = [10] /\
+  delivered (touts true [7; 8] (seq_labels true 3)) = [RItem 7; RItem 8; RStop].
+Proof. vm_compute. repeat split; reflexivity. Qed.
+
+Print Assumptions C19_merge_projection.
+Print Assumptions C19_merge_accounting.
+Print Assumptions C19_merge_terminates.
+Print Assumptions C19_merge_can_finish.
+Print Assumptions C19_merge_finished_stays.
+Print Assumptions C19_agen_items.
+Print Assumptions C19_agen_first_exception.
+Print Assumptions C19_agen_chronological_refuted.
+Print Assumptions C19_agen_chronological_partial.
+Print Assumptions C19_to_aiter_items.
+Print Assumptions C19_to_aiter_sequential.
